@@ -642,7 +642,54 @@ def prop_func(case, ctx):
         ctx.check(np.array_equal(G, G0), "the input coefficient cores were modified")
 
 
+# ------------------------------------------------------------------------------------------- hidden extremum (adversarial for the beam)
+
+@st.composite
+def hidden_cases(draw, tier):
+    """Nearly constant tensor c whose extreme entry `spike` sits at the crossing of two fibres of small modulus s: a pruned beam
+    discards that region in both sweep directions, the second pass (on (Y - y1)^2) may then find the spike on the SAME side as y1."""
+    d = draw(st.integers(3, 4))
+    n = [draw(st.integers(3, 5)) for _ in range(d)]
+    p = [draw(st.integers(0, k - 1)) for k in n]
+    m1 = draw(st.integers(0, d - 1))
+    m2 = draw(st.integers(0, d - 1).filter(lambda x: x != m1))
+    sgn = draw(st.sampled_from([1, -1]))
+    c = draw(st.sampled_from([3.0, 2.0, 10.0]))
+    return {"n": n, "p": p, "m1": m1, "m2": m2, "c": sgn * c, "s": sgn * c * draw(st.sampled_from([0.3, 0.1, 0.5])),
+            "spike": sgn * c * draw(st.sampled_from([1.7, 2.5, 1.2])), "k": draw(st.integers(1, 30)), "extra": draw(st.booleans())}
+
+
+def sum_rank1(terms, n):
+    """TT cores of sum_t coef_t * v_t1 (x) ... (x) v_td by block assembly (own code)."""
+    d, R = len(n), len(terms)
+    Y = []
+    for k in range(d):
+        G = np.zeros((1 if k == 0 else R, n[k], 1 if k == d - 1 else R))
+        for t, (coef, vecs) in enumerate(terms):
+            v = np.asarray(vecs[k], dtype=float) * (coef if k == 0 else 1.0)
+            G[0 if k == 0 else t, :, 0 if k == d - 1 else t] = v
+        Y.append(G)
+    return Y
+
+
+def prop_hidden(case, ctx):
+    n, p, c, sv, spike = case["n"], case["p"], case["c"], case["s"], case["spike"]
+    d = len(n)
+    ones = [np.ones(k) for k in n]
+    e = [np.eye(k)[p[j]] for j, k in enumerate(n)]
+    fib = lambda m: [ones[j] if j == m else e[j] for j in range(d)]         # fibre along mode m through p
+    terms = [(c, ones), (sv - c, fib(case["m1"])), (sv - c, fib(case["m2"])), (spike - (c + 2 * (sv - c)), e)]
+    Y = sum_rank1(terms, n)
+    ctx.label("hidden_spike", f"d={d}")
+    ctx.nontrivial(True)
+    run_tt(Y, case["k"], ctx, False, None, ret_all=False)
+    if case["extra"]:
+        for k in (1, 2, 3):
+            run_tt(Y, k, ctx, False, None, ret_all=False)
+
+
 SUBCHECKS = [
+    Sub("hidden", prop_hidden, strategy=hidden_cases, quick=40, thorough=600),
     Sub("tt", prop_tt, strategy=tt_cases, quick=100, thorough=1500),
     Sub("rank1", prop_tt, strategy=rank1_cases, quick=120, thorough=2000),
     Sub("small", prop_small, enumerate=small_cases, exhaustive=True),
